@@ -14,6 +14,7 @@ func init() {
 				func() *Job {
 					j := f4Job("notation-sites", "VerifNotationSites", 0, []string{"ran"}, []string{"C21-sites"},
 						"two generated classes with the same declarations, one written in compact notation (?T, [T], A|B, *T) and one with the named forms / is_default / is_asterisk flags, in every place of a configuration file that holds a type (positional and keyword arguments, return types, block parameters, constants, instance properties), loaded by the real loader; one program (block parameters, returns, ill-typed calls, constant, property) run against each class; outputs equal apart from the class name")
+					j.Budget = 30000000
 					return j
 				}(),
 			}
